@@ -628,12 +628,16 @@ void phpy_set_index_permutation_symmetry_compact_fc(
         j_p = s2pp[j];
         for (i_p = 0; i_p < n_patom; i_p++) {
             i = p2s[i_p];
-            if (i == j) { /* diagnoal part */
+            i_trans = perms[nsym_list[j] * n_satom + i];
+            if (i_p == j_p && i_trans == j) {
+                /* block (i_p, j) is its own partner: diagonal part (i == j) */
+                /* and pairs exchanged by a translation that is its own */
+                /* inverse. */
                 for (k = 0; k < 3; k++) {
                     for (l = 0; l < 3; l++) {
                         if (l > k) {
-                            m = i_p * n_satom * 9 + i * 9 + k * 3 + l;
-                            n = i_p * n_satom * 9 + i * 9 + l * 3 + k;
+                            m = i_p * n_satom * 9 + j * 9 + k * 3 + l;
+                            n = i_p * n_satom * 9 + j * 9 + l * 3 + k;
                             if (is_transpose) {
                                 fc_elem = fc[m];
                                 fc[m] = fc[n];
@@ -652,7 +656,6 @@ void phpy_set_index_permutation_symmetry_compact_fc(
                 /* primitive cell. The same translation sends i to i' */
                 /* where i' is not necessarily to be in primitive cell. */
                 /* Thus, i' = perms[nsym_list[j] * n_satom + i] */
-                i_trans = perms[nsym_list[j] * n_satom + i];
                 done[i_p * n_satom + j] = 1;
                 done[j_p * n_satom + i_trans] = 1;
                 for (k = 0; k < 3; k++) {
